@@ -12,6 +12,8 @@ name = "{name}"
 version = "0.1.0"
 edition = "2021"
 
+build = "build.rs"
+
 [lib]
 path = "src/lib.rs"
 
@@ -128,6 +130,16 @@ def mnemonic_file(mn):
     return "src/instructions/%s.rs" % mn.lower()
 
 
+def wide_muldiv(t):
+    """Forms whose product / quotient circuit CBMC cannot close with symbolic operand registers"""
+    mn = t["mnemonic"]
+    if mn not in ("Mul", "Imul", "Div", "Idiv"):
+        return False
+    first = t["ops"][0] if t["ops"] else ""
+    w = 64 if "64" in first else 32 if "32" in first else 16 if "16" in first else 8
+    return w >= 32 or (mn in ("Div", "Idiv") and w >= 16)
+
+
 def plan_l2(tier, baseline=None):
     """All L2 harnesses for this tree: one per (Code, operand shape).  quick: register shape + the
     canonical `[base64 + disp]` memory shape (relies on the L1 operand contract, DESIGN.md 3.2);
@@ -156,13 +168,25 @@ def plan_l2(tier, baseline=None):
             shapes = ["Mem"]
         else:
             shapes = ["Reg"]
-        for sh in shapes:
-            tag = {"Reg": "reg", "Mem": "mem", "MemBase": "memb", "MemAbs": "mema"}[sh]
+        wide = wide_muldiv(t)
+        if wide and base_impl:
+            # split obligation (DESIGN.md 3.2): arithmetic for all values with fixed registers + operand routing
+            # for all registers / memory shapes with bounded values
+            # (the divider circuit does not close even with fixed registers: the all-values arithmetic half of
+            #  DIV/IDIV is attempted in the thorough tier only and reported as undecided when it times out)
+            arith = [] if (t["mnemonic"] in ("Div", "Idiv") and tier == "quick") else [("RegFixed", False)]
+            shapes = arith + [(x, True) for x in shapes]
+        else:
+            shapes = [(x, False) for x in shapes]
+        for (sh, bounded) in shapes:
+            tag = {"Reg": "reg", "Mem": "mem", "MemBase": "memb", "MemAbs": "mema", "RegFixed": "regf"}[sh] + ("_bv" if bounded else "")
             name = "f_%s__%s" % (code, tag)
-            decl = "#[kani::proof]\nfn %s() {\n    run_form(Code::%s, &[%s], Shape::%s, Expect::%s, Family::%s, |ax, i| ax.mnemonic_%s(i))\n}\n" % (
+            decl = "#[kani::proof]\nfn %s() {\n    run_form_with(Code::%s, &[%s], Shape::%s, Expect::%s, Family::%s, |ax, i| ax.mnemonic_%s(i), %s)\n}\n" % (
                 name, code, ", ".join(OPCLASS[o] for o in ops), sh,
-                "Implemented" if base_impl else "Rejected", family(t["mnemonic"]), t["mnemonic"].lower())
+                "Implemented" if base_impl else "Rejected", family(t["mnemonic"]), t["mnemonic"].lower(), "true" if bounded else "false")
             harnesses.append(dict(name=name, code=code, shape=tag, mnemonic=t["mnemonic"], decl=decl,
+                                  bound=("values: GPRs sign-extended 4-bit, memory fill 0x00|0xFF (all registers / memory shapes)" if bounded else
+                                         ("registers fixed to xCX (r/m) and xBX (reg), all values" if sh == "RegFixed" else None)),
                                   expect="implemented" if base_impl else "rejected", family=family(t["mnemonic"]),
                                   file=mnemonic_file(t["mnemonic"]), fn=(r or {}).get("fn"), now_implemented=now_impl,
                                   routed_kind=(r or {}).get("kind", "no-dispatch-arm"),
@@ -170,12 +194,46 @@ def plan_l2(tier, baseline=None):
     return harnesses
 
 
+CRATE_LAYOUT_VERSION = "3: build.rs sets cfg ax_verif"
+
+L1_HARNESSES = [
+    ("l1_mem_rm64", "Mov_r64_rm64", "R64Reg, R64OrMem", "Mem", 1),
+    ("l1_mem_rm8_dst", "Mov_rm8_r8", "R8OrMem, R8Reg", "Mem", 0),
+    ("l1_mem_lea", "Lea_r64_m", "R64Reg, Mem", "Mem", 1),
+    ("l1_mem_moffs", "Mov_RAX_moffs64", "Rax, MemOffs", "Mem", 1),
+    ("l1_mem_xmm", "Movups_xmm_xmmm128", "XmmReg, XmmOrMem", "Mem", 1),
+    ("l1_reg8", "Mov_rm8_r8", "R8OrMem, R8Reg", "Reg", 0),
+    ("l1_reg16", "Mov_rm16_r16", "R16OrMem, R16Reg", "Reg", 1),
+    ("l1_reg32", "Mov_rm32_r32", "R32OrMem, R32Reg", "Reg", 0),
+    ("l1_reg64", "Mov_rm64_r64", "R64OrMem, R64Reg", "Reg", 1),
+    ("l1_regxmm", "Movups_xmm_xmmm128", "XmmReg, XmmOrMem", "Reg", 1),
+    ("l1_imm8", "Add_rm8_imm8", "R8OrMem, Imm8", "Reg", 1),
+    ("l1_imm16", "Add_rm16_imm16", "R16OrMem, Imm16", "Reg", 1),
+    ("l1_imm32", "Add_rm32_imm32", "R32OrMem, Imm32", "Reg", 1),
+    ("l1_imm32sex64", "Add_rm64_imm32", "R64OrMem, Imm32Sex64", "Reg", 1),
+    ("l1_imm8sex16", "Add_rm16_imm8", "R16OrMem, Imm8Sex16", "Reg", 1),
+    ("l1_imm8sex32", "Add_rm32_imm8", "R32OrMem, Imm8Sex32", "Reg", 1),
+    ("l1_imm8sex64", "Add_rm64_imm8", "R64OrMem, Imm8Sex64", "Reg", 1),
+    ("l1_imm64", "Mov_r64_imm64", "R64Opcode, Imm64", "Reg", 1),
+]
+
+
+def plan_l1():
+    hs = []
+    for (name, code, ops, shape, idx) in L1_HARNESSES:
+        decl = "#[kani::proof]\nfn %s() {\n    crate::harness::l1::check_operand(Code::%s, &[%s], Shape::%s, %d)\n}\n" % (name, code, ops, shape, idx)
+        hs.append(dict(name=name, code=code, shape=shape.lower(), mnemonic="L1", decl=decl, expect="implemented", family="L1",
+                       file="src/helpers/operand.rs", fn="instruction_operand/mem_addr", now_implemented=True, routed_kind="implemented",
+                       instruction_string="operand %d of %s" % (idx, code), ops=[]))
+    return hs
+
+
 def framework_hash():
     parts = []
     for rel in ["model/errors.rs", "model/debug.rs", "model/verif_hooks.rs", "model/regfile.rs", "model/l2/axecutor.rs",
-                "spec/x86spec.rs", "harness/mkinstr.rs", "harness/l2.rs"]:
+                "spec/x86spec.rs", "harness/mkinstr.rs", "harness/l2.rs", "harness/l1.rs"]:
         parts.append(open(os.path.join(KANI, rel)).read())
-    parts.append(open(os.path.abspath(__file__)).read())
+    parts.append(CRATE_LAYOUT_VERSION)
     return X.sha(*parts)
 
 
@@ -200,9 +258,10 @@ def build_l2(dst, harnesses):
     copy(os.path.join(KANI, "model/l2/axecutor.rs"), os.path.join(src, "axecutor.rs"))
     write(os.path.join(src, "state/hooks.rs"), "//! L2 model: instruction text only asks whether hooks exist for a mnemonic\n#[derive(Clone, Copy)]\npub struct Hook {}\n")
     copy(os.path.join(KANI, "harness/l2.rs"), os.path.join(src, "harness/l2.rs"))
+    copy(os.path.join(KANI, "harness/l1.rs"), os.path.join(src, "harness/l1.rs"))
     win, nwin = l2_params(harnesses)
     write(os.path.join(src, "model/params.rs"), "pub const WIN: usize = %d;\npub const NWIN: usize = %d;\n" % (win, nwin))
-    mods = sorted({h["mnemonic"].lower() for h in harnesses})
+    mods = sorted({h["mnemonic"].lower() for h in harnesses if h["mnemonic"] != "L1"})
     for base in mods:
         rel = "src/instructions/%s.rs" % base
         t = X.whole_file(rel)
@@ -210,7 +269,7 @@ def build_l2(dst, harnesses):
         extracted["instructions/%s.rs" % base] = dict(repo=rel, sha256=X.sha(t), lines=t.count("\n") + 1)
     write(os.path.join(src, "instructions/mod.rs"), "".join("pub mod %s;\n" % m for m in mods))
     gen = ["//! generated by run/axv/kanicrate.py from iced's op_code_info table -- do not edit\n",
-           "use crate::harness::l2::{run_form, Expect, Family};\nuse crate::harness::mkinstr::{OpClass::*, Shape};\nuse iced_x86::Code;\n"]
+           "use crate::harness::l2::{run_form, run_form_with, Expect, Family};\nuse crate::harness::mkinstr::{OpClass::*, Shape};\nuse iced_x86::Code;\n"]
     gen += [h["decl"] for h in harnesses]
     write(os.path.join(src, "harness/gen_l2.rs"), "".join(gen))
     lib = ["#![allow(warnings)]\n", FORMAT_SHADOW,
@@ -220,10 +279,12 @@ def build_l2(dst, harnesses):
            "pub mod auto { pub mod generated; }\n",
            "pub mod axecutor;\npub mod instructions;\n",
            "pub mod spec { pub mod x86spec; }\n",
-           "pub mod harness { pub mod mkinstr; #[cfg(kani)] pub mod l2; #[cfg(kani)] pub mod gen_l2; }\n"]
+           "pub mod harness { pub mod mkinstr; #[cfg(kani)] pub mod l2; #[cfg(kani)] pub mod l1; #[cfg(kani)] pub mod gen_l2; }\n"]
     write(os.path.join(src, "lib.rs"), "".join(lib))
     write(os.path.join(dst, "Cargo.toml"), CARGO_TOML.format(name="axl2"))
-    write(os.path.join(dst, ".cargo/config.toml"), "[net]\noffline = true\n[build]\nrustflags = [\"--cfg\", \"ax_verif\"]\n")
+    write(os.path.join(dst, ".cargo/config.toml"), "[net]\noffline = true\n")
+    # E4: the hook cfg is set by a build script because cargo-kani overrides RUSTFLAGS
+    write(os.path.join(dst, "build.rs"), "fn main() {\n    println!(\"cargo:rustc-cfg=ax_verif\");\n    println!(\"cargo:rustc-check-cfg=cfg(ax_verif)\");\n}\n")
     shutil.copyfile(os.path.join(X.REPO, "Cargo.lock"), os.path.join(dst, "Cargo.lock"))
     return extracted
 
